@@ -184,6 +184,11 @@ def generate(seed: int, tier: str, phase: str) -> Dict[str, Any]:
             ops.append(c)
         else:
             ops.append(_gen_call(r, dtypes))
+    if kind == "module" and r.random() < 0.6:
+        # call, change hyper-parameter attributes on the module, call again with the same signature
+        again = copy.deepcopy(base)
+        again["tseed"] = r.randrange(1 << 30)
+        ops[1:1] = [{"op": "set_attr", "i": r.randrange(16), "v": r.randrange(8)}, again]
     plan["ops"] = ops
     return plan
 
@@ -649,12 +654,14 @@ def execute(plan: Dict[str, Any]) -> Dict[str, Any]:
                                 cands.append((sm, an, mn))
                     if not cands:
                         continue
-                    sm, an, mn = cands[op["i"] % len(cands)]
-                    new = {"mult": [0.5, 1.0, 2.0, 4.0], "is_causal": [True, False],
-                           "constraint": [None, "to_output_scale", "gmean", "to_grad_input_scale"]}[an]
-                    setattr(sm, an, new[op["v"] % len(new)])
-                    probe("module_attribute_changes")
-                    res["opseq"].append(f"set_attr:{an}")
+                    # one attribute (i odd) or every hyper-parameter attribute of the module tree
+                    chosen = [cands[op["i"] % len(cands)]] if op["i"] % 2 else cands
+                    for ci, (sm, an, mn) in enumerate(chosen):
+                        new = {"mult": [0.5, 1.0, 2.0, 4.0], "is_causal": [True, False],
+                               "constraint": [None, "to_output_scale", "gmean", "to_grad_input_scale"]}[an]
+                        setattr(sm, an, new[(op["v"] + ci) % len(new)])
+                    probe("module_attribute_changes", len(chosen))
+                    res["opseq"].append("set_attr:" + (chosen[0][1] if len(chosen) == 1 else "all"))
                     continue
                 if k == "bad_call":
                     if last_good is None:
